@@ -25,6 +25,8 @@ def gen_case(rng, thorough, force=None):
     c["shape"] = [rng.randint(1, mx) for _ in range(3)]
     if rng.chance(0.3):
         c["shape"][rng.randint(0, 2)] = 1
+    if c["shape"] == [1, 1, 1]:          # fdtdx cannot allocate a 1x1x1 volume (create_named_sharded_matrix needs a dim != 1)
+        c["shape"][rng.randint(0, 2)] = 2
     if force and "shape" in force:
         c["shape"] = list(force["shape"])
     faces, consistent, bloch = {}, True, False
